@@ -227,6 +227,8 @@ func genRecursion(emit func(Case)) {
 		{"error in error", "sub vcl_recv { error 601; }\nsub vcl_error { error 602; }\n"},
 		{"error in deliver", "sub vcl_deliver { error 601; }\n"},
 		{"deliver_stale cold", "sub vcl_recv { return(lookup); }\nsub vcl_miss { return(deliver_stale); }\n"},
+		{"deliver_stale cold with backend", "backend b { .host = \"example.com\"; .port = \"80\"; }\nsub vcl_recv { set req.backend = b; return(lookup); }\nsub vcl_miss { return(deliver_stale); }\n"},
+		{"deliver_stale from pass / hit / fetch with backend", "backend b { .host = \"example.com\"; .port = \"80\"; }\nsub vcl_recv { set req.backend = b; if (req.url ~ \"x\") { return(pass); } return(lookup); }\nsub vcl_pass { return(deliver_stale); }\nsub vcl_hit { return(deliver_stale); }\nsub vcl_fetch { return(deliver_stale); }\n"},
 		{"deliver_stale error", "sub vcl_recv { error 601; }\nsub vcl_error { return(deliver_stale); }\n"},
 		{"goto loop", "sub vcl_recv { again: set req.http.A = req.http.A \"x\"; goto again; }\n"},
 		{"goto forward", "sub vcl_recv { goto end; set req.http.A = \"x\"; end: }\n"},
